@@ -24,8 +24,8 @@
    Library facts that do not mention the generated file are in
    theories/C16_GenProofs.v. CLIManager.Get is translated too (section 6:
    C16_gen_Get_spec / _footprint / _equiv; C16_gen_Get_composition is the model-side
-   lemma it rests on). List and parsePluginFromDir (WalkDir) are outside the
-   translator (docs/audit/C16.md, section GoLite). *)
+   lemma it rests on), and so are List and parsePluginFromDir (sections 7, 8:
+   fs.WalkDir as a tree-supplying oracle; docs/audit/C16.md, section GoLite). *)
 From Coq Require Import List Bool String Ascii NArith ZArith Lia.
 From NV Require Import Base GoLib C16_Path C16_Model C16_Proofs C16_Audit C16_GenProofs C16_Gen.
 Import ListNotations.
@@ -699,6 +699,308 @@ Proof.
     rewrite ?perm_bit_0100, ?perm_bit_0100', Hx. reflexivity.
 Qed.
 Print Assumptions C16_gen_isExecutableFile_equiv.
+
+(* ================================================================== *)
+(* 7. CLIManager.List (fs.WalkDir: the oracle supplies the tree the walk sees,
+      GoLib.walk_dir is the library's algorithm with the SkipDir protocol)      *)
+
+(* the loop over the children inside GoLib.walk_node, named *)
+Definition kids_loop {E S : Type} (fn : S -> string -> ptr E -> option GoLib.err -> option (S * option GoLib.err)) :=
+  fix kids_loop (l : list (walk_tree E)) (s : S) : option (S * option GoLib.err) :=
+    match l with
+    | [] => Some (s, None)
+    | k :: l' =>
+        match walk_node fn k s with
+        | None => None
+        | Some (s, None) => kids_loop l' s
+        | Some (s, Some e) =>
+            if err_is_sentinel "fs.SkipDir" (Some e) then Some (s, None) else Some (s, Some e)
+        end
+    end.
+
+Lemma walk_node_dir_unfold {E S : Type} (fn : S -> string -> ptr E -> option GoLib.err -> option (S * option GoLib.err))
+      name d kids s :
+  fn s name (PNew d) None = Some (s, None) ->
+  walk_node fn (WNode name d true None kids) s = kids_loop fn kids s.
+Proof. intros H. cbn [walk_node]. rewrite H. reflexivity. Qed.
+
+Definition entry_of_kid {E : Type} (k : walk_tree E) : E := match k with WNode _ d _ _ _ => d end.
+
+(* a child of the root as ReadDir reports it: its path is not ".", and the
+   directory flag the walk reads says [isd] of the entry *)
+Definition kid_ok {E : Type} (isd : E -> bool) (k : walk_tree E) : Prop :=
+  match k with WNode name d isdir _ _ => name <> "." /\ isdir = isd d end.
+
+Lemma kids_loop_spec {E : Type} (fn : list string -> string -> ptr E -> option GoLib.err -> option (list string * option GoLib.err))
+      (isd : E -> bool) (nm : E -> string) (skip : option GoLib.err) :
+  err_is_sentinel "fs.SkipDir" skip = true ->
+  (forall s name d, name <> "." ->
+     fn s name (PNew d) None = Some (if isd d then (s ++ [nm d], skip) else (s, None))) ->
+  forall kids, Forall (kid_ok isd) kids ->
+  forall s, kids_loop fn kids s = Some (s ++ map nm (filter isd (map entry_of_kid kids)), None).
+Proof.
+  intros Hskip Hfn kids HF. induction HF as [|k kids Hk _ IH]; intros s.
+  - cbn. now rewrite app_nil_r.
+  - destruct k as [name d isdir rerr gk]. destruct Hk as [Hn Hd]. subst isdir.
+    cbn [kids_loop map filter entry_of_kid]. fold (kids_loop fn).
+    assert (W : walk_node fn (WNode name d (isd d) rerr gk) s
+                = Some (if isd d then s ++ [nm d] else s, None)).
+    { cbn [walk_node]. rewrite (Hfn s name d Hn). destruct (isd d).
+      - destruct skip as [e|]; [|discriminate]. cbn [is_some orb]. rewrite Hskip. reflexivity.
+      - reflexivity. }
+    rewrite W. destruct (isd d); rewrite IH; cbn [map app]; [rewrite <- app_assoc|]; reflexivity.
+Qed.
+
+(* a real (non-symlink) directory, as List tests it on DirEntry.Type() *)
+Definition real_dir {E : Type} (Ty : E -> Z) (d : E) : bool :=
+  gen_fs_FileMode_IsDir (Ty d) && Z.eqb (Z.land (Ty d) 134217728 (* fs.ModeSymlink *)) 0.
+
+(* the entry list of the model: name and kind (which non-directory kind is
+   immaterial to list_plugins) *)
+Definition model_entry {E : Type} (Ty : E -> Z) (Nm : E -> string) (k : walk_tree E) : string * ekind :=
+  (Nm (entry_of_kid k), if real_dir Ty (entry_of_kid k) then KDir else KOther).
+
+Lemma list_plugins_entries {E : Type} (Ty : E -> Z) (Nm : E -> string) kids :
+  list_plugins true (map (model_entry Ty Nm) kids)
+  = map Nm (filter (real_dir Ty) (map entry_of_kid kids)).
+Proof.
+  unfold list_plugins. induction kids as [|k kids IH]; [reflexivity|].
+  cbn [map filter]. unfold model_entry at 1. cbn [snd].
+  destruct (real_dir Ty (entry_of_kid k)); cbn [is_kdir map fst]; rewrite IH; reflexivity.
+Qed.
+
+(* List = the model's list_plugins over what the walk of the plugin root sees:
+   exactly the names of the real (non-symlink) sub-directories, in ReadDir order,
+   nothing below them (SkipDir); a missing root lists nothing without error *)
+Theorem C16_gen_List_equiv : forall DE Ty Nm Walk m,
+  match Walk "." with
+  | inr e =>
+      if err_is (Some e) os_ErrNotExist
+      then gen_plugin_CLIManager_List DE Ty Nm Walk m = Some (list_plugins false [], None)
+      else exists r, gen_plugin_CLIManager_List DE Ty Nm Walk m = Some ([], r)
+  | inl (WNode nm d isdir rerr kids) =>
+      nm = "." ->
+      if isdir
+      then rerr = None -> Forall (kid_ok (real_dir Ty)) kids ->
+           gen_plugin_CLIManager_List DE Ty Nm Walk m
+           = Some (list_plugins true (map (model_entry Ty Nm) kids), None)
+      else gen_plugin_CLIManager_List DE Ty Nm Walk m = Some ([], None)
+  end.
+Proof.
+  intros DE Ty Nm Walk m. unfold gen_plugin_CLIManager_List.
+  match goal with |- context [walk_dir ?f _ _ _] => set (fn := f) end.
+  assert (Froot : forall s d, fn s "." (PNew d) None = Some (s, None)) by (intros; reflexivity).
+  assert (Fkid : forall s name d, name <> "." ->
+            fn s name (PNew d) None
+            = Some (if real_dir Ty d then (s ++ [Nm d], fs_SkipDir) else (s, None))).
+  { intros s name d Hn. subst fn. cbv beta. cbn [GoLib.is_none negb ptr_val].
+    apply String.eqb_neq in Hn. rewrite Hn. unfold real_dir.
+    destruct (gen_fs_FileMode_IsDir (Ty d)); cbn [negb orb andb]; [|reflexivity].
+    destruct (Z.eqb (Z.land (Ty d) 134217728) 0); reflexivity. }
+  destruct (Walk ".") as [[nm d isdir rerr kids]|e]; unfold walk_dir.
+  - intros ->. destruct isdir.
+    + intros -> HF. rewrite (walk_node_dir_unfold fn "." d kids [] (Froot [] d)).
+      rewrite (kids_loop_spec fn (real_dir Ty) Nm fs_SkipDir eq_refl Fkid kids HF []).
+      cbn [app err_is_sentinel orb GoLib.is_none negb]. rewrite list_plugins_entries. reflexivity.
+    + cbn [walk_node]. rewrite Froot. reflexivity.
+  - subst fn. cbv beta. cbn [GoLib.is_none negb].
+    destruct (err_is (Some e) os_ErrNotExist); [reflexivity|].
+    destruct (err_is_sentinel "fs.SkipDir" (Some e) || err_is_sentinel "fs.SkipAll" (Some e));
+      cbn [GoLib.is_none negb]; eexists; reflexivity.
+Qed.
+Print Assumptions C16_gen_List_equiv.
+
+(* C16_list on the code as translated: a name is listed iff the walk saw a child
+   of the root with that name that is a real (non-symlink) directory *)
+Theorem C16_gen_List_exact : forall DE Ty Nm Walk m d kids n,
+  Walk "." = inl (WNode "." d true None kids) -> Forall (kid_ok (real_dir Ty)) kids ->
+  exists names, gen_plugin_CLIManager_List DE Ty Nm Walk m = Some (names, None)
+    /\ (In n names <-> exists k, In k kids /\ Nm (entry_of_kid k) = n /\ real_dir Ty (entry_of_kid k) = true).
+Proof.
+  intros DE Ty Nm Walk m d kids n HW HF.
+  pose proof (C16_gen_List_equiv DE Ty Nm Walk m) as L. rewrite HW in L.
+  specialize (L eq_refl eq_refl HF). eexists. split; [exact L|].
+  rewrite (list_exact true (map (model_entry Ty Nm) kids) n). split.
+  - intros [_ HI]. apply in_map_iff in HI. destruct HI as [k [Hk HI]]. exists k.
+    unfold model_entry in Hk. destruct (real_dir Ty (entry_of_kid k)) eqn:R; inversion Hk; subst; auto.
+  - intros [k [HI [Hn Hr]]]. split; [reflexivity|]. apply in_map_iff. exists k. split; [|exact HI].
+    unfold model_entry. rewrite Hr, Hn. reflexivity.
+Qed.
+Print Assumptions C16_gen_List_exact.
+
+(* ================================================================== *)
+(* 8. parsePluginFromDir (filepath.WalkDir): the scan of an install source    *)
+
+Definition scan_tuple (st : scan) : string * string * string * bool * list string :=
+  (sc_file st, sc_name st, sc_cand st, sc_found st, sc_files st).
+
+Definition is_ndir (n : node) : bool := match n with NDir => true | _ => false end.
+
+(* what the walk shows of one entry (c, n) of the source directory src: its path,
+   its name, whether it is a directory, a FileInfo that says "regular" exactly for
+   files; for a file, isExecutableFile's answer is the node's x bit *)
+Definition kid_rel (FI DE : Type) (Stat : string -> FI * option GoLib.err) (IsRegular : FI -> bool)
+           (Mode : FI -> Z) (Nm : DE -> string) (IsDir : DE -> bool)
+           (Info : DE -> FI * option GoLib.err) (src : string)
+           (k : walk_tree DE) (e : string * node) : Prop :=
+  match k with
+  | WNode p d isdir _ _ =>
+      p = child_path src (fst e) /\ p <> src /\ Nm d = fst e
+      /\ IsDir d = isdir /\ isdir = is_ndir (snd e)
+      /\ (exists fi, Info d = (fi, None) /\ IsRegular fi = negb (is_ndir (snd e)))
+      /\ match snd e with
+         | NFile x _ => gen_plugin_isExecutableFile FI Stat Mode p = (x, None)
+         | NDir => True
+         end
+  end.
+
+Section ScanWalk.
+  Variables (FI DE : Type) (Stat : string -> FI * option GoLib.err) (IsRegular : FI -> bool)
+            (Mode : FI -> Z) (Nm : DE -> string) (IsDir : DE -> bool)
+            (Info : DE -> FI * option GoLib.err) (src : string).
+  Variable fn : (string * string * string * bool * list string) -> string -> ptr DE -> option GoLib.err
+                -> option ((string * string * string * bool * list string) * option GoLib.err).
+
+  (* the callback on one related entry follows the model's scan_step *)
+  Definition fn_follows_scan_step : Prop :=
+    forall k e st, kid_rel FI DE Stat IsRegular Mode Nm IsDir Info src k e ->
+      match k with
+      | WNode p d _ _ _ =>
+          match scan_step src (Some st) e with
+          | Some st' =>
+              fn (scan_tuple st) p (PNew d) None
+              = Some (scan_tuple st', if is_ndir (snd e) then fs_SkipDir else None)
+          | None =>
+              exists s' er, fn (scan_tuple st) p (PNew d) None = Some (s', Some er)
+                            /\ err_typ er = "errors"
+          end
+      end.
+
+  Lemma scan_walk (Hfn : fn_follows_scan_step) : forall kids es,
+    Forall2 (kid_rel FI DE Stat IsRegular Mode Nm IsDir Info src) kids es ->
+    forall st,
+      match fold_left (scan_step src) es (Some st) with
+      | Some st' => kids_loop fn kids (scan_tuple st) = Some (scan_tuple st', None)
+      | None => exists s' er, kids_loop fn kids (scan_tuple st) = Some (s', Some er)
+                              /\ err_typ er = "errors"
+      end.
+  Proof.
+    intros kids es HF. induction HF as [|k e kids es Hk _ IH]; intros st.
+    - reflexivity.
+    - cbn [fold_left]. pose proof (Hfn k e st Hk) as H.
+      destruct k as [p d isdir rerr gk]. cbn [kids_loop]. fold (kids_loop fn).
+      destruct Hk as (_ & _ & _ & _ & Hd & _).
+      destruct (scan_step src (Some st) e) as [st'|] eqn:E.
+      + assert (W : walk_node fn (WNode p d isdir rerr gk) (scan_tuple st) = Some (scan_tuple st', None)).
+        { cbn [walk_node]. rewrite H, Hd. destruct (is_ndir (snd e)); reflexivity. }
+        rewrite W. apply IH.
+      + destruct H as [s' [er [H Ht]]].
+        assert (Hs : err_is_sentinel "fs.SkipDir" (Some er) = false).
+        { destruct er as [t f ws]. cbn in Ht. subst t. reflexivity. }
+        assert (W : walk_node fn (WNode p d isdir rerr gk) (scan_tuple st) = Some (s', Some er)).
+        { cbn [walk_node]. rewrite H. cbn [is_some orb]. rewrite Hs. reflexivity. }
+        rewrite W, Hs.
+        assert (F : fold_left (scan_step src) es None = None).
+        { clear. induction es as [|x es IH]; [reflexivity|exact IH]. }
+        rewrite F. eexists; eexists; split; [reflexivity|exact Ht].
+  Qed.
+End ScanWalk.
+
+(* parsePluginFromDir on a directory = the model's scan (fold of scan_step over
+   the entries) followed by the model's decision; setExecutable is an oracle *)
+Theorem C16_gen_parsePluginFromDir_equiv :
+  forall FI Stat IsRegular Mode DE Nm IsDir Info Walk SetExec src fi0 d0 kids es,
+    Stat src = (fi0, None) -> gen_fs_FileMode_IsDir (Mode fi0) = true ->
+    Walk src = inl (WNode src d0 true None kids) ->
+    (exists fi, Info d0 = (fi, None) /\ IsRegular fi = false) ->
+    Forall2 (kid_rel FI DE Stat IsRegular Mode Nm IsDir Info src) kids es ->
+    let g := gen_plugin_parsePluginFromDir FI Stat IsRegular Mode DE Nm IsDir Info Walk SetExec src in
+    match fold_left (scan_step src) es (Some scan0) with
+    | None => exists e, g = Some ("", "", Some e)
+    | Some st =>
+        if sc_found st then g = Some (sc_file st, sc_name st, None)
+        else match sc_files st with
+             | [cand] => match SetExec cand with
+                         | None => g = Some (cand, sc_cand st, None)
+                         | Some _ => exists e, g = Some ("", "", Some e)
+                         end
+             | _ => exists e, g = Some ("", "", Some e)
+             end
+    end.
+Proof.
+  intros FI Stat IsReg Mode DE Nm IsDir Info Walk SetExec src fi0 d0 kids es HS HD HW [fi [HI HR]] HF.
+  cbn zeta. unfold gen_plugin_parsePluginFromDir. rewrite HS. cbn [GoLib.is_none negb]. rewrite HD.
+  cbn [negb]. cbv zeta.
+  match goal with |- context [walk_dir ?f _ _ _] => set (fn := f) end.
+  rewrite HW. unfold walk_dir.
+  assert (Froot : forall st, fn (scan_tuple st) src (PNew d0) None = Some (scan_tuple st, None)).
+  { intros st. subst fn. unfold scan_tuple. cbv beta iota zeta. cbn [GoLib.is_none negb ptr_val].
+    rewrite (proj2 (String.eqb_eq src src) eq_refl), andb_false_r. rewrite HI. cbn [GoLib.is_none negb].
+    rewrite HR. reflexivity. }
+  assert (Hfn : fn_follows_scan_step FI DE Stat IsReg Mode Nm IsDir Info src fn).
+  { intros [p d isdir rerr gk] [c n] st (Hp & Hne & Hn & Hd & Hi & [fi' [Hinfo Hreg]] & Hx). cbn [fst snd] in *.
+    subst fn. unfold scan_tuple. cbv beta iota zeta. cbn [GoLib.is_none negb ptr_val].
+    apply String.eqb_neq in Hne. rewrite Hne, Hd, Hi. cbn [negb]. rewrite andb_true_r.
+    destruct n as [|x md]; cbn [is_ndir scan_step snd fst].
+    - reflexivity.
+    - rewrite Hinfo. cbn [GoLib.is_none negb]. rewrite Hreg. cbn [is_ndir negb]. rewrite Hn.
+      pose proof (C16_gen_parsePluginName_equiv c) as P.
+      destruct (parse_plugin_name c) as [nm|].
+      + rewrite P. cbn [GoLib.is_none negb]. rewrite <- Hp, Hx. cbn [GoLib.is_none negb].
+        destruct x; cbn [negb].
+        * destruct (sc_found st) eqn:F.
+          -- eexists; eexists; split; [reflexivity|reflexivity].
+          -- reflexivity.
+        * reflexivity.
+      + destruct P as [e [P _]]. rewrite P. cbn [GoLib.is_none negb]. reflexivity. }
+  change ("", "", "", false, @nil string) with (scan_tuple scan0).
+  rewrite (walk_node_dir_unfold fn src d0 kids (scan_tuple scan0) (Froot scan0)).
+  pose proof (scan_walk FI DE Stat IsReg Mode Nm IsDir Info src fn Hfn kids es HF scan0) as L.
+  destruct (fold_left (scan_step src) es (Some scan0)) as [st|].
+  - rewrite L. unfold scan_tuple. cbv beta iota zeta. cbn [err_is_sentinel orb GoLib.is_none negb].
+    destruct (sc_found st); cbn [negb]; [reflexivity|].
+    destruct (sc_files st) as [|cand [|c2 r]].
+    + eexists; reflexivity.
+    + change (Z.eqb (list_len [cand]) 1) with true. change (list_get [cand] 0) with (Some cand).
+      cbv beta iota zeta.
+      destruct (SetExec cand); cbn [GoLib.is_none negb]; [eexists|]; reflexivity.
+    + replace (Z.eqb (list_len (cand :: c2 :: r)) 1) with false.
+      * eexists; reflexivity.
+      * symmetry. apply Z.eqb_neq. unfold list_len. cbn [List.length]. lia.
+  - destruct L as [s' [er [L Ht]]]. rewrite L.
+    destruct er as [t f ws]. cbn in Ht. subst t.
+    destruct s' as [[[[a b] c] fd] l]. cbv beta iota zeta.
+    cbn [err_is_sentinel orb GoLib.is_none negb]. eexists; reflexivity.
+Qed.
+Print Assumptions C16_gen_parsePluginFromDir_equiv.
+
+(* ... = the model's parse_dir: es are the entries the model reads (children w src),
+   setExecutable succeeds exactly on the model's regular files *)
+Theorem C16_gen_parsePluginFromDir_parse_dir :
+  forall FI Stat IsRegular Mode DE Nm IsDir Info Walk SetExec w src fi0 d0 kids,
+    Stat src = (fi0, None) -> gen_fs_FileMode_IsDir (Mode fi0) = true ->
+    Walk src = inl (WNode src d0 true None kids) ->
+    (exists fi, Info d0 = (fi, None) /\ IsRegular fi = false) ->
+    Forall2 (kid_rel FI DE Stat IsRegular Mode Nm IsDir Info src) kids (children w src) ->
+    (forall p, SetExec p = None <-> exists x m, fs_lookup p w = Some (NFile x m)) ->
+    let g := gen_plugin_parsePluginFromDir FI Stat IsRegular Mode DE Nm IsDir Info Walk SetExec src in
+    match fst (parse_dir w src) with
+    | Some (file, name, _) => g = Some (file, name, None)
+    | None => exists e, g = Some ("", "", Some e)
+    end.
+Proof.
+  intros FI Stat IsReg Mode DE Nm IsDir Info Walk SetExec w src fi0 d0 kids HS HD HW HI HF HX. cbn zeta.
+  pose proof (C16_gen_parsePluginFromDir_equiv FI Stat IsReg Mode DE Nm IsDir Info Walk SetExec src fi0 d0 kids
+                (children w src) HS HD HW HI HF) as E. cbn zeta in E.
+  unfold parse_dir. destruct (fold_left (scan_step src) (children w src) (Some scan0)) as [st|]; [|exact E].
+  destruct (sc_found st); [exact E|].
+  destruct (sc_files st) as [|cand [|c2 r]]; [exact E| |exact E].
+  destruct (SetExec cand) as [e|] eqn:X.
+  - destruct (fs_lookup cand w) as [[|x m]|] eqn:L; try exact E.
+    exfalso. assert (SetExec cand = None) by (apply HX; eauto). congruence.
+  - apply HX in X. destruct X as [x [m X]]. rewrite X. exact E.
+Qed.
+Print Assumptions C16_gen_parsePluginFromDir_parse_dir.
 
 (* ---------- non-vacuity: the oracle hypotheses can be met ---------- *)
 
